@@ -78,6 +78,25 @@ K("used_tree_node_contract", ["C07", "C13"], ITF,
   "used_tree_node = the ids of this index's tree keys",
   "symbolic store: 4 entries; ids < 64", site="Writer::used_tree_node")
 
+# ---------------------------------------------------------------- reader R obligations (C06 C05 C19 C03)
+RDF = ["reader.verif_open.rs"]
+_OPEN = [("open_euclidean_on_euclidean", "quick"), ("open_euclidean_on_cosine", "quick"), ("open_euclidean_on_manhattan", "thorough"),
+         ("open_euclidean_on_dot", "thorough"), ("open_euclidean_on_bq_euclidean", "quick"), ("open_euclidean_on_bq_cosine", "thorough"),
+         ("open_euclidean_on_bq_manhattan", "thorough"), ("open_euclidean_on_foreign", "quick"), ("open_cosine_on_cosine", "quick"),
+         ("open_manhattan_on_manhattan", "quick"), ("open_dot_on_dot", "quick"), ("open_bqe_on_bqe", "quick"), ("open_bqc_on_bqc", "quick"),
+         ("open_bqm_on_bqm", "quick"), ("open_cosine_on_euclidean", "thorough"), ("open_bqe_on_euclidean", "thorough")]
+for _n, _t in _OPEN:
+    K(_n, ["C06", "C16"] if "_on_" in _n else ["C06"], RDF,
+      "Reader::open = MissingMetadata iff no metadata record; else UnmatchingDistance iff stored name != D::name(); else NeedBuild iff any updated mark of the index; else Ok with the metadata's dimension/items/roots (%s)" % _n,
+      "store: 2 arbitrary entries + optional metadata record (reference encoding, concrete stored name; dims/items/root symbolic)",
+      tier=_t, site="Reader::open")
+K("reader_item_vector_contains", ["C05"], RDF,
+  "Reader::item_vector / contains_item return exactly what the raw item entry holds (bit-for-bit), None/false when absent",
+  "store: 2 arbitrary entries + 1 leaf with arbitrary bytes; dim 2", site="Reader::item_vector")
+K("query_rejections", ["C19", "C03"], RDF,
+  "by_vector with len != dim => InvalidVecDimension{expected: dim, received: len}; by_item(unknown id) => Ok(None)",
+  "dim 1..=4, len 0..=6, store: 3 arbitrary entries", site="QueryBuilder::by_vector/by_item")
+
 PROPS = {}
 
 KANI_NOTE = ("Trusted: Kani/CBMC and rustc MIR semantics; the environment models in /verif/models (heed store, "
@@ -126,8 +145,37 @@ P("C16", "The on-disk format stays readable",
   assumptions=["reference layout = DESIGN.md appendix A, captured from the pinned commit"])
 
 
+P("C05", "The item store returns exactly what was last written",
+  "bounded model checking (Kani/CBMC) of single API calls over a symbolic model store; post-state read from the raw store",
+  "Bounded model checking of every item-store mutator and reader (one call from an arbitrary bounded pre-state, all f32 bit patterns); histories are covered by the inductive step argument.",
+  stubs_and_models=STD_STUBS + MODELS,
+  functions_encoded=["Writer::add_item", "Writer::append_item", "Writer::del_item", "Writer::clear", "Writer::item_vector",
+                     "Writer::contains_item", "Writer::item_indices", "Reader::item_vector", "Reader::contains_item", "NodeCodec (leaf)"],
+  bounds={"store": "<= 6 entries (3-5 arbitrary pre-existing)", "dimension": "2 (f32), 3 (quantised)", "ids": "whole u32 at key level, < 64 inside bitmaps"},
+  outside_claim=["commit/abort visibility (LMDB)", "dimensions beyond the bound", "the SSE to_vec path of quantised vectors (see C12)"],
+  assumptions=["environment models are faithful for the calls arroy makes"])
+P("C06", "A stale or never-built index is never silently served",
+  "bounded model checking (Kani/CBMC) of the updated-mark writers, Reader::open and need_build over a symbolic model store",
+  "Bounded model checking: every mutator leaves an updated mark, rejected/no-op calls leave the store identical, Reader::open's outcome is exactly the documented decision table for every store within bounds.",
+  stubs_and_models=STD_STUBS + MODELS,
+  functions_encoded=["Writer::add_item", "Writer::append_item", "Writer::del_item", "Writer::clear", "Writer::need_build",
+                     "Writer::reset_and_retrieve_updated_items", "Reader::open", "MetadataCodec::bytes_decode", "Distance::name (x7)"],
+  bounds={"store": "<= 6 entries", "stored metric names": "the 7 real names + one foreign"},
+  outside_claim=["commit/abort visibility (LMDB)", "that build ends with the metadata write on every success path (read off build's two exits)"],
+  assumptions=["environment models are faithful for the calls arroy makes"])
+P("C19", "Rejected calls have no effect",
+  "bounded model checking (Kani/CBMC) with a whole-store frame condition",
+  "Bounded model checking: wrong-length add/append/by_vector, non-monotone append and delete of an absent id return the documented error/false and the store is byte-identical (no write attempted).",
+  stubs_and_models=STD_STUBS + MODELS,
+  functions_encoded=["Writer::add_item", "Writer::append_item", "Writer::del_item", "QueryBuilder::by_vector", "QueryBuilder::by_item"],
+  bounds={"store": "<= 6 entries", "dimension": "1..=4", "vector length": "0..=6"},
+  outside_claim=["LMDB's actual MDB_APPEND behaviour (model contract)"],
+  assumptions=["environment models are faithful for the calls arroy makes"])
+claim("C05")
+claim("C06")
 claim("C07")
 claim("C16")
+claim("C19")
 
 
 def obligations(prop, tier):
